@@ -1,5 +1,6 @@
 //! `wfh <family> <seed> <n> <outdir>`: runs the real winterfell crates on generated inputs.
 //! Writes `<outdir>/<family>.qa` (Q/A line pairs, see `out.rs`) and `<outdir>/<family>.stats.json`.
+mod c06b;
 mod c08;
 mod c10;
 mod c11;
@@ -24,6 +25,7 @@ mod out;
 mod protocol;
 mod rng;
 mod tamper;
+mod vmodel;
 
 fn main() {
     let args: Vec<String> = std::env::args().collect();
@@ -67,12 +69,17 @@ fn main() {
         "c04" => tamper::run_c04(&mut rng, &mut out, n),
         "c05" => tamper::run_c05(&mut rng, &mut out, n),
         "c06" => tamper::run_c06(&mut rng, &mut out, n),
+        "c06b" => c06b::run(&mut rng, &mut out, n),
+        "c06c" => c06b::run_comb(&mut rng, &mut out, n),
         "objseed" => obj::run_seed(&mut rng, &mut out, n),
         "c27" => c27::run(&mut rng, &mut out, n),
         "c27x" => c27::run_exhaustive(&mut out, n),
         "c28" => c28::run(&mut rng, &mut out, n),
         "c29" => c29::run(&mut rng, &mut out, n),
         "c29t" => c29::run_table(&mut rng, &mut out, n),
+        "vfy" => vmodel::run(&mut rng, &mut out, n),
+        "vfy4" => vmodel::run_c04(&mut rng, &mut out, n),
+        "vfy3" => vmodel::run_c03(&mut rng, &mut out, n),
         _ => {
             eprintln!("unknown family {fam}");
             std::process::exit(2);
